@@ -20,7 +20,8 @@ Outputs == {"json", "lineprotocol"}
 \* crlfField: the script file has CR LF line ends, also inside a multi-line string literal whose value it stores: the script
 \* that runs is the file's bytes, nothing is normalised on the way
 \* nilField: the script leaves a field whose value is nil: it is part of the point and is printed (JSON null)
-Kinds == {"noop", "addField", "crlfField", "nilField", "toTag", "setMeas", "clearMeas", "setTime", "dropMsg", "useSibling", "loadErr", "runErr", "linkErr", "selfUse"}
+\* noFields: the script leaves a point without any field (everything dropped or moved to tags): still a point, printed as JSON
+Kinds == {"noop", "addField", "crlfField", "nilField", "noFields", "toTag", "setMeas", "clearMeas", "setTime", "dropMsg", "useSibling", "loadErr", "runErr", "linkErr", "selfUse"}
 
 VARIABLES cfg, phase, pt, snap, out, err
 vars == <<cfg, phase, pt, snap, out, err>>
@@ -33,7 +34,7 @@ Effect(k, p) == CASE k \in {"addField", "crlfField", "nilField"} -> [p EXCEPT !.
                   [] k = "setMeas" -> [p EXCEPT !.meas = "new"]
                   [] k = "clearMeas" -> [p EXCEPT !.meas = "empty"]     \* set_measurement(""): an empty name is still the script's result
                   [] k = "setTime" -> [p EXCEPT !.time = "set", !.dropped = TRUE]   \* default_time drops its key
-                  [] k = "dropMsg" -> [p EXCEPT !.dropped = TRUE]
+                  [] k \in {"dropMsg", "noFields"} -> [p EXCEPT !.dropped = TRUE]
                   [] k = "useSibling" -> [p EXCEPT !.fromlib = TRUE]
                   [] OTHER -> p
 
@@ -41,7 +42,7 @@ Init == /\ cfg \in [mode : Modes, input : Inputs, output : Outputs, kind : Kinds
         /\ (cfg.kind = "useSibling" => cfg.mode \in {"workspace", "workspace_ppl"})      \* a sibling needs a workspace
         \* (a use() of a missing script, or of the script itself, is a load error in every mode - also when the script is the only one)
         /\ (cfg.mode = "workspace_lone" => cfg.kind \in {"noop", "addField", "linkErr", "selfUse", "runErr"})
-        /\ (cfg.kind = "nilField" => cfg.output = "json")                           \* line protocol has no spelling for nil
+        /\ (cfg.kind \in {"nilField", "noFields"} => cfg.output = "json")         \* line protocol cannot spell a point without fields                           \* line protocol has no spelling for nil
         /\ (cfg.kind = "clearMeas" => cfg.output = "json")                          \* line protocol cannot encode an empty name
         /\ (cfg.kind = "toTag" /\ cfg.input \in {"text_multiline", "text_blank", "text_empty"} => cfg.output = "json")  \* ... nor a line break inside a tag value
         /\ phase = "start" /\ pt = None /\ snap = None /\ out = None /\ err = "none"
